@@ -112,7 +112,7 @@ func c19RunScenario(sc c19Scenario) c19ChildOut {
 	phase.Store("start")
 	var running, high int32
 	rng := rand.New(rand.NewSource(sc.Seed))
-	durOf := make([]int, total+1)
+	durOf := make([]int, total+4) // three more for the late submitter of the race scenarios
 	for i := range durOf {
 		d := sc.Dur
 		if d == 4 {
@@ -247,8 +247,15 @@ func c19RunScenario(sc c19Scenario) c19ChildOut {
 				}
 			}
 			phase.Store("release")
+			lateSubmits := rng.Intn(2) == 0
+			lateFor := time.Duration(500+rng.Intn(2500)) * time.Microsecond
 			if !waitCh(release(), "release-return") {
 				return
+			}
+			if lateSubmits { // submitters go on sending into the released pool for a while, and a new one arrives: none of these jobs may ever start
+				subWG.Add(1)
+				go submitter(sc.Subs, 3)
+				time.Sleep(lateFor)
 			}
 			close(quit)
 			sd := make(chan struct{})
@@ -696,6 +703,66 @@ func init() {
 			},
 			Extra: func(tier string, rng *rand.Rand, res *Result) {
 				res.Traces = len(res.Cases)
+				// what the recorded traces exercise (distribution of the correspondence inputs)
+				modes, ws, qs, shapes := map[string]int{}, map[string]int{}, map[string]int{}, map[string]int{}
+				for _, raw := range res.Cases {
+					var c c19Case
+					if json.Unmarshal(raw, &c) != nil {
+						continue
+					}
+					modes[c.Sc.Mode]++
+					ws[fmt.Sprintf("W%d", c.Sc.W)]++
+					qs[fmt.Sprintf("Q%d", c.Sc.Q)]++
+					calls, starts, relCall, relRet := 0, 0, -1, -1
+					startsAfterRelCall, callsAfterRelCall, callsAfterRelRet := 0, 0, 0
+					for i, e := range c.Trace {
+						switch e[0] {
+						case c19KSubCall:
+							calls++
+							if relCall >= 0 {
+								callsAfterRelCall++
+							}
+							if relRet >= 0 {
+								callsAfterRelRet++
+							}
+						case c19KStart:
+							starts++
+							if relCall >= 0 {
+								startsAfterRelCall++
+							}
+						case c19KRelCall:
+							relCall = i
+						case c19KRelRet:
+							relRet = i
+						}
+					}
+					if c.Sc.Mode == "race" {
+						switch {
+						case starts == 0:
+							shapes["race: released before any job started"]++
+						case starts < calls:
+							shapes["race: released with submitted jobs never started"]++
+						default:
+							shapes["race: every called job started"]++
+						}
+						if startsAfterRelCall > 0 {
+							shapes["race: jobs started between release-call and release-return"]++
+						}
+						if callsAfterRelCall > 0 {
+							shapes["race: submit calls after release-call"]++
+						}
+						if callsAfterRelRet > 0 {
+							shapes["race: submit calls after release-return"]++
+						}
+					}
+					if c.Sc.Q == 0 && starts > 0 {
+						shapes["Q=0: every send a hand-over to the dispatcher"]++
+					}
+				}
+				res.Stats["traces_by_mode"] = modes
+				res.Stats["traces_by_W"] = ws
+				res.Stats["traces_by_Q"] = qs
+				res.Stats["trace_shapes"] = shapes
 			},
 		}, a)
 	}
